@@ -231,6 +231,8 @@ def run_case(case):
     it = Interp()
     for op in case['ops']:
         it.step(op)
+        if it.fails:
+            break               # later steps would only report consequences of the first failure
     return it.fails
 
 
@@ -332,7 +334,10 @@ class MsgMachine(RuleBasedStateMachine):
 
     def _do(self, op):
         self.ops.append(op)
-        self.it.step(op)
+        try:
+            self.it.step(op)        # only to keep a model for state-dependent rules; judged again in teardown
+        except Exception:  # noqa: BLE001
+            pass
 
     @initialize(t=st.sampled_from(R.ALL_TYPES), data=st.data())
     def init(self, t, data):
